@@ -407,8 +407,49 @@ impl<'r> G<'r> {
         Some(Card::call_function(f.name, args))
     }
 
+    /// An array literal long enough to make the natives' scratch tables grow several times. Array
+    /// literals only work as the value of a statement (their hidden local takes the next stack
+    /// slot), so functions declare them up front as locals named `lt..`.
+    fn long_array(&mut self) -> Card {
+        let n = 6 + self.rng.usize(30);
+        let strings = self.rng.chance(1, 3);
+        c(CardBody::Array(
+            (0..n)
+                .map(|_| {
+                    if strings {
+                        self.str_lit()
+                    } else {
+                        Card::scalar_int(self.rng.range(0, 12))
+                    }
+                })
+                .collect(),
+        ))
+    }
+
     fn std_call(&mut self, scope: &[Var]) -> Card {
-        let t = self.table_expr(scope, 1);
+        let long: Vec<&Var> = scope.iter().filter(|v| v.name.starts_with("lt")).collect();
+        let long = if long.is_empty() { None } else { Some(Card::read_var(long[self.rng.usize(long.len())].name.clone())) };
+        let t = match &long {
+            Some(l) if self.rng.chance(1, 2) => l.clone(),
+            _ => self.table_expr(scope, 1),
+        };
+        if long.is_some() && self.rng.chance(1, 4) {
+            // a key function that returns a fresh object for every row, over a long table: the
+            // natives have to keep every key alive while their scratch tables grow
+            let (pk, pv) = (self.fresh_name("p"), self.fresh_name("p"));
+            let fresh = match self.rng.below(3) {
+                0 => Card::call_native("mk_str", vec![Card::read_var(pv.clone())]),
+                1 => c(CardBody::Array(vec![Card::read_var(pv.clone())])),
+                _ => self.str_lit(),
+            };
+            let keyfn = c(CardBody::Closure(Box::new(Function {
+                arguments: vec![pk, pv],
+                cards: vec![Card::return_card(fresh)],
+            })));
+            let t = long.unwrap();
+            let name = ["std.sorted_by_key", "std.min_by_key", "std.max_by_key"][self.rng.usize(3)];
+            return Card::call_function(name, vec![keyfn, t]);
+        }
         match self.rng.below(9) {
             0 => Card::call_function("std.map", vec![self.fun_expr(scope, 3), t]),
             1 => Card::call_function("std.filter", vec![self.fun_expr(scope, 3), t]),
@@ -675,6 +716,12 @@ impl<'r> G<'r> {
             let n = format!("a{idx}_{j}");
             f.arguments.push(n.clone());
             scope.push(Var { name: n, ty: *ty, assignable: true });
+        }
+        if !sig.leaf && self.cfg.stdlib && self.rng.chance(1, 2) {
+            let name = format!("lt{idx}");
+            let arr = self.long_array();
+            f.cards.push(Card::set_var(name.clone(), arr));
+            scope.push(Var { name, ty: Ty::Table, assignable: false });
         }
         let n = if sig.leaf { self.rng.usize(3) } else { 1 + self.rng.usize(self.cfg.max_stmts) };
         for _ in 0..n {
